@@ -5,6 +5,7 @@ import RactorModel.Lemmas.AdmissionLate
 import RactorModel.Lemmas.AdmissionIds
 import RactorModel.Lemmas.AdmissionQueue
 import RactorModel.Lemmas.AdmissionOracle
+import RactorModel.Lemmas.AdmissionBack
 import RactorModel.Lemmas.AdmissionShut
 import RactorModel.Lemmas.Early
 import RactorModel.Lemmas.EarlyStep
@@ -27,16 +28,18 @@ when the drainer's `fetch_or(CLOSED)` has already happened (`late`, recorded by 
 see `first_step_records_closed`) returns `Err(SendErr(m))`, and `m` is never enqueued. -/
 theorem send_after_close_rejected (progs : List (List Op)) (sched : List Tid) :
     ∀ r ∈ (run (init progs) sched).sh.rets, r.kind = .send → r.late = true →
-      r.res = .sendErr ∧ (run (init progs) sched).sh.enq.count (.msg r.id) = 0 := by
+      r.res = .sendErr r.id ∧ (run (init progs) sched).sh.enq.count (.msg r.id) = 0 := by
   intro r hr hk hl
   have hL := (lateInv_run _ sched (lateInv_init progs)).late_log
   have hI := idInv_run r.id _ sched (idInv_init r.id progs)
   have hnb : Ret.lateBad r = false := by
     have := List.countP_eq_zero.mp hL r hr
     simpa using this
-  have hres : r.res = .sendErr := by
-    cases hres : r.res <;> simp [Ret.lateBad, hk, hl, hres] at hnb
-    rfl
+  have hB := (backInv_run _ sched (backInv_init progs)).own r hr hk
+  have hres : r.res = .sendErr r.id := by
+    cases hres : r.res with
+    | sendErr b => rw [hB b hres]
+    | _ => simp [Ret.lateBad, hk, hl, hres] at hnb
   refine ⟨hres, ?_⟩
   have hpos : 0 < (run (init progs) sched).sh.rets.countP (Ret.errFor r.id) :=
     List.countP_pos_iff.mpr ⟨r, hr, by simp [Ret.errFor, hk, hres]⟩
@@ -53,13 +56,17 @@ theorem send_started_after_close_is_rejected (progs : List (List Op)) (sched₁ 
     (hnot : (run (init progs) sched₁).sh.nextId ≤ m ∨
       ∃ stack ∈ (run (init progs) sched₁).threads, ∃ f ∈ stack, f.pc = .sStatus ∧ f.id = m) :
     (run (run (init progs) sched₁) sched₂).sh.enq.count (.msg m) = 0 ∧
-    ∀ r ∈ (run (run (init progs) sched₁) sched₂).sh.rets, r.kind = .send → r.id = m → r.res = .sendErr := by
+    ∀ r ∈ (run (run (init progs) sched₁) sched₂).sh.rets, r.kind = .send → r.id = m → r.res = .sendErr m := by
   have hI := idInv_run m _ sched₁ (idInv_init m progs)
   have hS := shutInv_run m _ sched₂ (shutInv_of_closed m _ hI hc hnot)
   refine ⟨hS.not_enq, fun r hr hk hid => ?_⟩
   have := List.countP_eq_zero.mp hS.rets_ok r hr
   simp only [Ret.notHandedBack, hid, beq_self_eq_true, hk, Bool.true_and, Bool.not_eq_true] at this
-  cases hres : r.res <;> simp_all
+  have hB := (backInv_run _ (sched₁ ++ sched₂) (backInv_init progs)).own r
+    (by simpa only [run, List.foldl_append] using hr) hk
+  cases hres : r.res with
+  | sendErr b => rw [hB b hres, hid]
+  | _ => simp_all
 
 /-- What `late` records: the first step of a send reads `closed` into the ghost flag (together with the ids of the sends that have already returned `Ok`; the
 send either returns `SendErr` at once because of the status, or goes on to `admit.load`). -/
@@ -67,7 +74,7 @@ theorem first_step_records_closed (s : Shared) (id : Nat) (late bf : Bool) (ops 
     (sk : List Nat) (rest : List Frame) :
     stepThread s (⟨.sStatus, id, late, ops, bf, sk⟩ :: rest) =
       if s.status ≥ stDraining then
-        some ({ s with rets := s.rets ++ [⟨.send, id, .sendErr, s.word.closed, okIds s.rets⟩] }, rest)
+        some ({ s with rets := s.rets ++ [⟨.send, id, .sendErr id, s.word.closed, okIds s.rets⟩] }, rest)
       else some (s, ⟨.aLoad, id, s.word.closed, ops, bf, okIds s.rets⟩ :: rest) := by
   simp only [stepThread, finish, kindOf]
 
@@ -332,7 +339,7 @@ theorem drained_actor_handled_exactly_the_accepted (progs : List (List Op)) (sch
     (he : endState (run (init progs) sched) = true)
     (hso : (run (init progs) sched).sh.stoppedByOther = false) :
     (∀ i, (run (init progs) sched).sh.handled.count i ≤ 1) ∧
-    (∀ r ∈ (run (init progs) sched).sh.rets, r.kind = .send → r.late = true → r.res = .sendErr) ∧
+    (∀ r ∈ (run (init progs) sched).sh.rets, r.kind = .send → r.late = true → r.res = .sendErr r.id) ∧
     (∀ r ∈ (run (init progs) sched).sh.rets, r.kind = .send → r.res = .ok →
       r.id ∈ (run (init progs) sched).sh.handled) := by
   refine ⟨?_, ?_, ?_⟩
@@ -383,7 +390,7 @@ def exampleProgs : List (List Op) := [[.send [] false], [.drain], [.send [] fals
 
 example : (run (init exampleProgs) exampleSched).sh.enq = [.msg 0, .drain] := by decide
 example : (run (init exampleProgs) exampleSched).sh.rets =
-    [⟨.drain, 0, .ok, false, []⟩, ⟨.send, 1, .sendErr, true, []⟩, ⟨.send, 0, .ok, false, []⟩] := by decide
+    [⟨.drain, 0, .ok, false, []⟩, ⟨.send, 1, .sendErr 1, true, []⟩, ⟨.send, 0, .ok, false, []⟩] := by decide
 example : (run (init exampleProgs) exampleSched).sh.word = ⟨true, true, 0⟩ ∧
     quiescent (run (init exampleProgs) exampleSched) = true := by decide
 /-- the re-entrant shape of `drain_defers_marker_for_reentrant_admitted_send`: the drain runs
@@ -401,7 +408,7 @@ example : endState (run (init exampleProgs) (exampleSched ++ [.recv, .recv, .rec
 (thread 1, two steps) thread 2's send is parked at `send.status` with id 0 … and is rejected -/
 example : (run (init exampleProgs) [.t 1, .t 1, .t 2]).sh.word.closed = true
     ∧ (∃ stack ∈ (run (init exampleProgs) [.t 1, .t 1, .t 2]).threads, ∃ f ∈ stack, f.pc = .sStatus ∧ f.id = 0)
-    ∧ (run (init exampleProgs) [.t 1, .t 1, .t 2, .t 2, .t 2]).sh.rets = [⟨.send, 0, .sendErr, true, []⟩] := by
+    ∧ (run (init exampleProgs) [.t 1, .t 1, .t 2, .t 2, .t 2]).sh.rets = [⟨.send, 0, .sendErr 0, true, []⟩] := by
   refine ⟨by decide, ⟨_, List.mem_of_getElem? (i := 2) rfl, _, List.mem_cons_self, rfl, rfl⟩, by decide⟩
 
 
@@ -693,7 +700,7 @@ theorem model_admit_load_follows_generated (enq : Except MessagingErr Unit) (s :
     (rest : List Frame) (hpc : f.pc = .aLoad) (h : s.word.count + 1 < 2 ^ 62) :
     stepThread s (f :: rest) =
       match ActorProperties.try_admit_message enq (st s.word) with
-      | .done _ => some (finish s f .sendErr rest)
+      | .done _ => some (finish s f (.sendErr f.id) rest)
       | .cas _ _ _ => some (s, { f with pc := .aCas s.word } :: rest) := by
   rw [generated_try_admit_eq_model enq s.word h]
   unfold stepThread
@@ -857,6 +864,38 @@ example :
 
 end ports
 
+/-! ### Round 4, wave 2: a rejected send hands back exactly its own message
+
+`Res.sendErr b` carries the id `b` of the message inside `Err(MessagingErr::SendErr(m))`. Every
+rejection path of `send_message_unchecked` (status gate, closed admission at `admit.load` /
+`admit.cas`, closed channel at `send.enqueue` — the latter returning through the ticket drop and
+possibly through the marker program) moves the caller's own message into the error. The driver
+compares the id the real code hands back with the model's and evaluates the oracle clause
+`handed-back-other-message` (`Ret.backBad`) on the implementation's records. -/
+section handedBack
+open Admission
+
+/-- (2) **A rejected send hands back exactly its own message**: whenever a send returns
+`Err(SendErr(m'))`, `m'` is the message that was passed to that send — for all programs and all
+schedules (invariant `BackInv`, `Lemmas/AdmissionBack.lean`). -/
+theorem rejected_send_hands_back_its_own_message (progs : List (List Op)) (sched : List Tid) :
+    ∀ r ∈ (run (init progs) sched).sh.rets, r.kind = .send → ∀ b, r.res = .sendErr b → b = r.id :=
+  (backInv_run _ sched (backInv_init progs)).own
+
+/-- non-vacuity: in the example the send of message 1 (thread 2, started after the close) returns
+`sendErr` carrying id 1, while message 0 is accepted -/
+example : ⟨.send, 1, .sendErr 1, true, []⟩ ∈ (run (init exampleProgs) exampleSched).sh.rets := by decide
+/-- non-vacuity, the late path: a send that holds a ticket and finds the channel closed at
+`send.enqueue` returns its own message through `ticket.release` -/
+example : (run (init [[.send [] false], [.send [] false]])
+    [.t 0, .t 0, .t 1, .t 1, .t 1, .t 1, .t 1, .t 1, .rxStop, .rxClose, .t 1, .t 1]).sh.rets
+      = [⟨.send, 1, .sendErr 1, false, []⟩] := by decide
+/-- the oracle clause is not vacuous: an observation whose send hands back another id violates it -/
+example : (Obs.mk [⟨.send, 3, .sendErr 4, false, []⟩] [] ⟨false, false, 0⟩ 0 false true).violations
+    = ["handed-back-other-message"] := by decide
+
+end handedBack
+
 end C07
 
 #print axioms C07.at_most_one_stop_accepted
@@ -914,3 +953,5 @@ end C07
 #print axioms C07.model_close_installs_generated
 #print axioms C07.model_marker_load_follows_generated
 #print axioms C07.model_release_follows_generated
+-- round 4, wave 2
+#print axioms C07.rejected_send_hands_back_its_own_message
